@@ -268,6 +268,33 @@ Print Assumptions row_partition_roundtrip.
 Print Assumptions col_partition_roundtrip.
 
 (* ================================================================== *)
+(* Inputs unchanged, as a theorem over a store model (Model/FrameStore.v): _cat_col builds the result's name lists
+   with defaultdict(list) + list.extend -- the only in-place writes of torch_frame.cat.  With the parts' name lists as
+   heap objects (parts = dicts of ADDRESSES into the heap h): every write goes to a list allocated by the call, every
+   list that existed before the call holds what it held, the result's lists are fresh objects (no aliasing with any
+   input), and what they hold is exactly the pure model's group_names used by every theorem above. *)
+From PF Require Import Model.FrameStore Proofs.FrameStoreProofs.
+
+Theorem cat_col_names_inputs_unchanged : forall (h : nheap) (parts : list ndict) (tfs : list tframe),
+  Forall (Forall (fun sa => snd sa < length h)) parts ->
+  map names tfs = map (read_ndict h) parts ->
+  let st := cat_col_names_store h parts in
+  Forall (fun a => length h <= a) (snd st)
+  /\ (forall b, b < length h -> hget [] (fst (fst st)) b = hget [] h b)
+  /\ Forall (fun sa => length h <= snd sa) (snd (fst st))
+  /\ read_ndict (fst (fst st)) (snd (fst st)) = group_names tfs.
+Proof. exact cat_col_names_store_proof. Qed.
+Print Assumptions cat_col_names_inputs_unchanged.
+
+Example ex_store_cat_col :
+  let h := [["a"]; ["m"]; ["b"]]%string in
+  let parts := [[(st_numerical, 0); (st_multicategorical, 1)]; [(st_numerical, 2)]] in
+  let st := cat_col_names_store h parts in
+  read_ndict (fst (fst st)) (snd (fst st)) = [(st_numerical, ["a"; "b"]); (st_multicategorical, ["m"])]%string
+  /\ firstn 3 (fst (fst st)) = h /\ snd st = [3; 4; 3].
+Proof. vm_compute. repeat split. Qed.
+
+(* ================================================================== *)
 (* The same laws for the ragged cat of Model/RaggedCat.v (the model of
    MultiNestedTensor.cat / MultiEmbeddingTensor.cat as written, used by the
    correspondence check): the section hypotheses are the C06 theorems
